@@ -243,7 +243,7 @@ func (s *Session) authorizationHandler(cmd string, args []string) {
 
 	case "USER":
 		if len(args) > 0 {
-			s.user = args[0]
+			s.user = s.mailboxFor(args[0])
 			s.send(fmt.Sprintf("+OK Hello %v, welcome to Inbucket", s.user))
 		} else {
 			s.send("-ERR Missing username argument")
@@ -262,7 +262,7 @@ func (s *Session) authorizationHandler(cmd string, args []string) {
 			s.send("-ERR APOP requires two arguments")
 			return
 		}
-		s.user = args[0]
+		s.user = s.mailboxFor(args[0])
 		s.loadMailbox()
 		s.send(fmt.Sprintf("+OK Found %v messages for %v", s.msgCount, s.user))
 		s.enterState(TRANSACTION)
@@ -564,6 +564,16 @@ func (s *Session) sendMessageTop(msg storage.Message, lineCount int) {
 		return
 	}
 	s.send(".")
+}
+
+// mailboxFor returns the mailbox name for the name or address a client logs in with.
+func (s *Session) mailboxFor(user string) string {
+	if s.addrPolicy != nil {
+		if name, err := s.addrPolicy.ExtractMailbox(user); err == nil {
+			return name
+		}
+	}
+	return user
 }
 
 // Load the users mailbox
